@@ -16,6 +16,11 @@ This module holds what the clause needs on the Python side:
   * literal_world(rng)         literal-only import graphs (the schema of a literal is const-style)
   * union_world(rng)           providers whose declared schema is an anyOf / oneOf of records ("json" form; the evaluator model
                                has no such schemas, these cases carry the schema oracle only)
+  * history_world(rng)         closed / map-like / nested provider records that are not opened, merged under and over literals
+                               in up to four environments, with references before and after their targets: the border of
+                               Corr/C06Schema.hist_class (schemas that depend on how often a value has been merged), where
+                               the model's schema is compared with the implementation's outside the class and measured inside
+  * history_regressions()      the minimal programs of that class and their neighbours outside it
   * schema_part(case, obs)     the wire form of what the oracle in Corr/C06Schema.v looks at
   * cmp_line(...)              measurement lines: the model's schema against the implementation's
 """
@@ -141,6 +146,9 @@ def conforms(s, v):
 def providers_conform(case, obs_open):
     """every provider the OPEN run really opened returned a value its declared output schema accepts.
     echo providers declare `always'; a failing provider returns nothing (the run then has a diagnostic)."""
+    if case.get("outside_clause"):
+        # families that only serve the model-vs-implementation comparison of schemas declare themselves outside the clause
+        return False
     opened = set(e[1] for e in (obs_open.get("log") or []) if e[0] == "open")
     for n in opened:
         p = case.get("provs", {}).get(n)
@@ -618,7 +626,8 @@ CLASSES = {0: "outside_hypothesis", 1: "inside_accepted", 2: "inside_rejected_ne
            6: "inside_rejected_known_merge_additional", 7: "inside_rejected_known_absent_is_never",
            8: "inside_rejected_known_union_oneof", 9: "inside_rejected_known_merge_open_base"}
 CMP = {0: "agree", 1: "disagree", 2: "impl_schema_outside_model_vocabulary", 3: "no_model_schema",
-       4: "agree_only_without_the_final_merge_of_evalEnvironment"}
+       4: "agree_only_without_the_final_merge_of_evalEnvironment",
+       5: "disagree_inside_history_class", 6: "agree_inside_history_class"}
 
 
 def all_defs(c):
@@ -677,6 +686,156 @@ def measure(prop, cases, r):
                                      "projection": "type / prefixItems+items / properties+additionalProperties / oneOf / true / false; "
                                                    "const and required (and annotations) projected away"}
     return {"cases_classified": len(qlines), "totals": tot, "outside_because": reasons, "by_family": per_family}
+
+
+# ---------------------------------------------------------------------------------------------------------------
+# schemas that depend on the merge HISTORY (Corr/C06Schema.v hist_class): values that absorb a non-nil additionalProperties
+# of their base (closed / map-like provider records that are not opened) and are merged again - by a reference, by the parent's
+# re-merge, by a further import.  The family aims at the border of the class from both sides: the same shapes without a
+# reference, without an absorbing layer, with the reference evaluated before / after its target's parent.
+# The family serves the comparison of the MODEL's schema with the implementation's only ("schema_cmp_only": wire kind c06h,
+# value / diagnostics flag / call log are not compared: the model's repeated unknown layers read a typed
+# additionalProperties as `true`, which can change a diagnostic - selftest/witness/C06-model-repeated-unknown-layer.replay.json).
+# Its worlds declare themselves outside the schema clause ("outside_clause": providers_conform answers False), because
+# references over null / scalar layers of imports run into a finding of their own that is not recorded
+# (selftest/witness/C06-schema-merge-through-cut.replay.json).
+HKEYS = ["a", "b", "k", "z"]
+
+
+def _hist_out(r, depth=2):
+    """declared output: record with declared members, additionalProperties nil / false / a type / true, nested records"""
+    if depth == 0 or r.chance(1, 4):
+        return r.choice(["string", "number", "boolean", "always", "object"])
+    props = {}
+    for k in r.shuffle(HKEYS + ["val"])[: r.below(3)]:
+        props[k] = _hist_out(r, depth - 1)
+    d = {"t": "object", "props": props, "required": sorted(props)[: r.below(len(props) + 1)]}
+    a = r.below(5)
+    if a == 0:
+        d["addl"] = "never"
+    elif a == 1:
+        d["addl"] = "string"
+    elif a == 2:
+        d["addl"] = "always"
+    elif a == 3:
+        d["addl"] = _hist_out(r, depth - 1)
+    return d
+
+
+def _hist_lit(r, depth):
+    if depth == 0 or r.chance(1, 3):
+        return r.choice([("num", "1"), ("str", "x"), ("bool", True), ("null",)])
+    return ("obj", [(k, _hist_lit(r, depth - 1)) for k in r.shuffle(HKEYS)[: r.below(3)]])
+
+
+def _hist_conform(r, out):
+    """a constant the declared output accepts (records: the declared members, sometimes an additional one)"""
+    if isinstance(out, str):
+        return G.xspec({"string": "x", "number": ("num", "1"), "boolean": True, "always": "x", "object": {}}.get(out, "x"))
+    m = {k: _hist_conform(r, v) for k, v in out["props"].items()}
+    ad = out.get("addl")
+    if ad not in (None, "never") and r.chance(1, 2):
+        m["more"] = _hist_conform(r, ad)
+    return G.xspec(m)
+
+
+def history_world(r):
+    nprov = 1 + r.below(2)
+    provs = {}
+    for i in range(nprov):
+        out = _hist_out(r, 2 + r.below(2))
+        beh = r.choice(["fail", "fail", "echo", "const"])
+        provs["h%d" % i] = {"in": "always", "out": out, "beh": beh}
+        if beh == "const":
+            provs["h%d" % i]["const"] = _hist_conform(r, out)
+            if not isinstance(provs["h%d" % i]["const"]["v"], dict) or "o" not in provs["h%d" % i]["const"]["v"]:
+                provs["h%d" % i]["beh"] = "fail"
+                del provs["h%d" % i]["const"]
+    nenv = 1 + r.below(3)
+    names = ["e%d" % i for i in range(nenv)] + ["root"]
+    with_refs = r.chance(3, 4)
+    opn = lambda: ("open", r.choice(sorted(provs)), ("obj", []))
+    envs = {}
+    for i, n in enumerate(names):
+        imports = []
+        if i > 0:
+            for m in r.shuffle(names[:i])[: 1 + r.below(min(i, 2))]:
+                imports.append((m, not r.chance(1, 8)))
+        keys = r.shuffle(HKEYS)[: 1 + r.below(len(HKEYS))]
+        vals = []
+        for k in keys:
+            c = r.below(12)
+            if c < 3:
+                e = opn()
+            elif c < 5:
+                inner = [(kk, opn() if r.chance(1, 2) else _hist_lit(r, 1)) for kk in r.shuffle(HKEYS)[: 1 + r.below(2)]]
+                if r.chance(1, 4):
+                    inner = [(kk, ("obj", [(r.choice(HKEYS), v)]) if r.chance(1, 2) else v) for kk, v in inner]
+                e = ("obj", inner)
+            elif c < 8 or not with_refs:
+                e = _hist_lit(r, 2)
+            elif c == 8:
+                e = ("arr", [opn() if r.chance(1, 2) else _hist_lit(r, 1), _hist_lit(r, 1)][: 1 + r.below(2)])
+            else:
+                e = None
+            vals.append((k, e))
+        # references: to a sibling key (declared here or only in an import), to a member, forwards and backwards
+        out = []
+        for k, e in vals:
+            if e is None:
+                tgt = r.choice(HKEYS)
+                path = [("name", tgt)] + [("name", r.choice(HKEYS + ["val"])) for _ in range(r.below(3))]
+                if tgt == k and len(path) == 1:
+                    path = [("name", r.choice([x for x in HKEYS if x != k]))]
+                e = ("sym", path)
+                if r.chance(1, 6):
+                    e = ("obj", [(r.choice(HKEYS), e), (r.choice(HKEYS), _hist_lit(r, 1))][: 1 + r.below(2)])
+            out.append((k, e))
+        if with_refs and r.chance(1, 3):
+            out.append(("r%d" % i, ("sym", [("name", r.choice(HKEYS))] + ([("name", r.choice(HKEYS))] if r.chance(1, 2) else []))))
+        if with_refs and r.chance(1, 6) and imports:
+            out.append(("i%d" % i, ("sym", [("name", "imports"), ("name", imports[0][0]), ("name", r.choice(HKEYS))])))
+        seen, ded = set(), []
+        for k, e in out:
+            if k not in seen and not (e[0] == "obj" and len(set(x[0] for x in e[1])) != len(e[1])):
+                seen.add(k)
+                ded.append((k, e))
+        envs[n] = {"imports": imports, "values": r.shuffle(ded)}
+    c = _world(envs, provs, "history/" + ("refs" if with_refs else "norefs"))
+    c["outside_clause"] = True
+    c["schema_cmp_only"] = True
+    return c
+
+
+def history_regressions():
+    """the minimal programs of the two ways the merge history shows (both inside hist_class: measured, never a mismatch) and
+    their neighbours outside the class (compared)"""
+    closed = {"t": "object", "props": {"val": "boolean"}, "required": ["val"], "addl": "never"}
+    p = {"p": {"in": "always", "out": closed, "beh": "fail"}}
+    opn = ("open", "p", ("obj", []))
+    one = ("num", "1")
+    sym = lambda *n: ("sym", [("name", x) for x in n])
+    out = []
+    # 1: a reference copies a value whose schema already absorbed its base's additionalProperties, then merges it again
+    out.append(_world({"e1": {"imports": [], "values": [("v1", opn), ("v2", one)]},
+                       "root": {"imports": [("e1", True)], "values": [("v1", ("obj", [])), ("v2", sym("v1"))]}}, p, "history/min1"))
+    # ... the neighbours: no base at the referencing key; no reference
+    out.append(_world({"e1": {"imports": [], "values": [("v1", opn)]},
+                       "root": {"imports": [("e1", True)], "values": [("v1", ("obj", [])), ("v2", sym("v1"))]}}, p, "history/min1n"))
+    out.append(_world({"e1": {"imports": [], "values": [("v1", opn), ("v2", one)]},
+                       "root": {"imports": [("e1", True)], "values": [("v1", ("obj", [])), ("v2", ("obj", []))]}}, p, "history/min1n"))
+    # 2: the parent's merge re-merges an already evaluated member in place; a reference evaluated AFTER it sees the re-merged
+    #    schema, one evaluated BEFORE it (a0 sorts before z) does not
+    out.append(_world({"e1": {"imports": [], "values": [("a", ("obj", [("x", opn)]))]},
+                       "root": {"imports": [("e1", True)], "values": [("a", ("obj", [("x", ("obj", []))])), ("b", sym("a", "x"))]}},
+                      p, "history/min2"))
+    out.append(_world({"e1": {"imports": [], "values": [("z", ("obj", [("x", opn)]))]},
+                       "root": {"imports": [("e1", True)], "values": [("z", ("obj", [("x", ("obj", []))])), ("a0", sym("z", "x"))]}},
+                      p, "history/min2n"))
+    for c in out:
+        c["outside_clause"] = True
+        c["schema_cmp_only"] = True
+    return out
 
 
 # ---------------------------------------------------------------------------------------------------------------
